@@ -300,7 +300,7 @@ pub enum StreamError {
     RemoteClosing,
     Undefined(BoxedError),
 }
-// ASSUMED-FROM-UNIT: TODO(C05/C07) CloseStream::{handle_connection_error_on_stream, handle_quic_stream_error}: they
+// ASSUMED-FROM-UNIT: error_scope CloseStream::{handle_connection_error_on_stream, handle_quic_stream_error}: they
 // write the shared error cell and wake the driver; they neither open streams nor touch the closing flag
 pub trait CloseStream: ConnectionState {
     spec fn frame_same(&self, o: &Self) -> bool;
@@ -349,14 +349,14 @@ impl<C, B> ConnectionInner<C, B> where C: quic::Connection<B>, B: Buf {
         &&& self.send_grease_frame == o.send_grease_frame
         &&& self.ctrl_taken == o.ctrl_taken
     }
-    // ASSUMED-FROM-UNIT: TODO(C05) ConnectionInner::handle_connection_error — the *first* error offered on a connection is
+    // ASSUMED-FROM-UNIT: conn_error ConnectionInner::handle_connection_error — the *first* error offered on a connection is
     // what every caller gets back (DESIGN C05); here only: the offer is logged, nothing else that C08/C09 look at moves.
     #[verifier::external_body]
     pub fn handle_connection_error<T: IntoOrigin>(&mut self, error: T) -> (r: ConnectionError)
         ensures final(self).same_but_error(old(self)),
             final(self).raised@ == old(self).raised@.push(error.offered()),
     { unimplemented!() }
-    // ASSUMED-FROM-UNIT: TODO(C05) ConnectionInner::poll_connection_error
+    // ASSUMED-FROM-UNIT: conn_error ConnectionInner::poll_connection_error
     #[verifier::external_body]
     pub fn poll_connection_error(&mut self, cx: &mut Context<'_>) -> (r: Poll<Result<(), ConnectionError>>)
         ensures final(self).same_but_error(old(self)), final(self).raised@ == old(self).raised@,
@@ -369,7 +369,7 @@ impl<C, B> ConnectionInner<C, B> where C: quic::Connection<B>, B: Buf {
             final(self).send_grease_frame == old(self).send_grease_frame, final(self).raised == old(self).raised,
             final(self).handled_connection_error == old(self).handled_connection_error, final(self).ctrl_taken == old(self).ctrl_taken,
     { unimplemented!() }
-    // ASSUMED-FROM-UNIT: TODO(verusC04) ConnectionInner::poll_control — the next frame from the peer's control stream
+    // ASSUMED-FROM-UNIT: control ConnectionInner::poll_control — the next frame from the peer's control stream
     // (`ctrl_taken` = frames handed to the role-specific driver so far); identifiers in decoded frames are varints (< 2^62)
     #[verifier::external_body]
     pub fn poll_control(&mut self, cx: &mut Context<'_>) -> (r: Poll<Result<Frame<PayloadLen>, ConnectionError>>)
